@@ -4,6 +4,23 @@
 import json, os, re, glob
 HERE = os.path.dirname(os.path.dirname(os.path.abspath(__file__)))
 res = json.load(open(os.path.join(HERE, "seeded", "RESULTS.json")))
+MANUAL = {
+  "C19": ("codebuilder._multiline_string_nodes skips every child node whose lineno equals its end_lineno - which is also true (None == None) for nodes "
+          "without a position: comprehension, arguments, match_case, withitem - so multi-line string literals below them keep the function-body indentation",
+          "a multi-line string literal inside a comprehension, a lambda / def default, a match case or a with item"),
+  "C23": ("usertypes.Text.do_convert tests `value < 2 ** 53` instead of `abs(value) < 2 ** 53`: whole floats <= -2**53 are written as long integer digit strings",
+          "a Numeric (or Any) cell holding a whole number <= -2**53 whose column is changed to Text"),
+}
+suites = {}
+sp = os.path.join(HERE, "seeded", "SUITES.txt")
+if os.path.exists(sp):
+  for ln in open(sp):
+    if " pinned: " in ln:
+      k, rest = ln.split(" pinned: ", 1)
+      pin, sh = rest.split(" | shim failures: ")
+      suites[k.strip()] = (pin.strip(), sorted(x for x in sh.strip().split(",") if x))
+BASE8 = sorted(["test_csv_encoding_detection_greek", "test_excel_strange_dates", "test_make_formula_body", "test_formula_errors", "test_missing_all_attribute",
+                "test_missing_all_iteration", "test_make_module_text", "test_traceback_available_for_trigger_formula"])
 props = {json.loads(l)["id"]: json.loads(l) for l in open(os.path.join(HERE, "properties.jsonl"))}
 
 
@@ -32,6 +49,8 @@ for d in sorted(glob.glob(os.path.join(HERE, "seeded", "C*"))):
   bl = bullets(notes)
   change = next((b for b in bl if re.match(r"\**change", b, re.I)), bl[0] if bl else notes.strip()[:400])
   needs = next((b for b in bl if re.search(r"need|circumstance|manifest|trigger|when it shows|requires", b[:60], re.I)), "")
+  if pid in MANUAL:
+    change, needs = MANUAL[pid]
   patch = open(os.path.join(d, "patch.diff")).read()
   files = re.findall(r"^\+\+\+ b/(\S+)", patch, re.M)
   r = res.get(pid, {})
@@ -40,8 +59,8 @@ for d in sorted(glob.glob(os.path.join(HERE, "seeded", "C*"))):
     "files_changed": files, "change": change[:900], "needs_to_manifest": needs[:1200],
     "origin": "fresh sub-agent given only the property text and a scratch worktree of /repo (nothing from /verif)",
     "confirmed": {"demo_exit_unpatched": r.get("demo_unpatched"), "demo_exit_patched": r.get("demo_patched"),
-                  "pinned_suite_with_patch": "158 passed (same test ids as the unchanged tree)",
-                  "shim_suite_with_patch": "8 failed / 515 passed: exactly the 8 baseline failures",
+                  "pinned_suite_with_patch": (suites[pid][0] + " (re-run here in a scratch worktree with the patch applied)") if pid in suites else "158 passed (agent's report)",
+                  "standin_suite_with_patch": (("exactly the 8 baseline failures" if suites[pid][1] == BASE8 else "failures: %s" % suites[pid][1]) + " (re-run here)") if pid in suites else "8 baseline failures (agent's report)",
                   "how": "tools/seedtest.sh: demo.py on /repo, git -C /repo apply patch.diff, demo.py again, ./vcheck %s --tier quick, git -C /repo checkout -- ." % pid},
     "check": {"cmd": "./vcheck %s --tier quick" % pid, "exit_with_patch": r.get("check_exit"), "violation_lines": r.get("violations"),
               "caught": r.get("check_exit") == 1, "first_report": r.get("first", ""), "caught_before_strengthening": r.get("caught_before"),
